@@ -5,7 +5,7 @@ CHECK = {'level': 'model_checking',
  'rule': 'every log up to the length bound over {7 plain writes, 5 transaction templates x every start index, a chunked write or chunked transaction (2 chunks via the real ChunkingApply, other entries may land between the chunks, at most one in flight)}; every batch goes through the chunking wrapper exactly as raft feeds it; after a restart or snapshot install delivery resumes at the persisted index; for '
          'each log every batching, every restart position and every snapshot-install position (x every already-applied '
          'prefix) is executed on real FSMs and compared with the serial value-based reference; non-trivial = distinct '
-         '(reference verdict vector, final state, length)',
+         '(reference verdict vector, final state, length). Unit leader: the verdict the LEADER reports to its client (RaftTransaction.Commit through the real raft library; every merge of pairs from 10 colliding programs; proposals chunked into 48-byte chunks and unchunked) equals the same serial reference, and a refused transaction leaves nothing behind',
  'assumptions': ['log entries are built the way an honest leader builds them (real createVerificationEntry / '
                  'createListVerificationEntry over the reference state at the start index; honest LowestActiveIndex)',
                  'bolt on tmpfs; hashicorp/raft itself is not in the loop (ApplyBatch/Restore/NewFSM are driven '
@@ -13,6 +13,13 @@ CHECK = {'level': 'model_checking',
  'units': [{'name': 'raftfsm',
             'pkg': './internal/physical/raft',
             'run': '^TestVerifC09$',
+            'env': {'BAO_RAFT_INITIAL_MMAP_SIZE': '4194304'},
+            'ulimit_kb': 67108864,
+            'shards': {'quick': 16, 'thorough': 16},
+            'timeout': {'quick': 900, 'thorough': 3000}},
+           {'name': 'leader',
+            'pkg': './internal/physical/raft',
+            'run': '^TestVerifC09Leader$',
             'env': {'BAO_RAFT_INITIAL_MMAP_SIZE': '4194304'},
             'ulimit_kb': 67108864,
             'shards': {'quick': 16, 'thorough': 16},
